@@ -43,7 +43,7 @@ func watchForwardingRule(c *Ctx, rule string) {
 			continue
 		}
 		nSend := 0
-		for _, g := range withClosures(up) {
+		for _, g := range m.reachWithFuncArgs(up) {
 			eachInstr(g, func(in ssa.Instruction) {
 				switch x := in.(type) {
 				case *ssa.Send:
@@ -118,8 +118,8 @@ func watcherUpdatesRule(c *Ctx, rule string) {
 		}
 		key := "stable channel: " + n.Obj().Name() + ".Updates"
 		var unguarded []ssa.Instruction
-		for _, g := range withClosures(up) {
-			guarded := g != up && m.insideOnceDo(g, up)
+		for _, g := range m.reachWithFuncArgs(up) {
+			guarded := g != up && m.insideOnceAny(g)
 			eachInstr(g, func(in ssa.Instruction) {
 				switch in.(type) {
 				case *ssa.MakeChan, *ssa.Go:
@@ -143,20 +143,34 @@ func watcherUpdatesRule(c *Ctx, rule string) {
 	c.floor(rule, 2)
 }
 
-// insideOnceDo: closure g (nested in root) is, or is nested in, a function literal passed to (*sync.Once).Do.
-func (m *Model) insideOnceDo(g, root *ssa.Function) bool {
-	for f := g; f != nil && f != root; f = f.Parent() {
-		if mc := m.Sym.closureOf[f]; mc != nil {
-			if refs := mc.Referrers(); refs != nil {
-				for _, r := range *refs {
-					if call, ok := isCallTo(valueOf(r), "(*sync.Once).Do"); ok && len(call.Call.Args) == 2 && call.Call.Args[1] == ssa.Value(mc) {
-						return true
-					}
+// reachWithFuncArgs: f, its closures, and the library functions reachable from them through
+// static calls, go statements and function values handed to sync.Once.Do / time.AfterFunc.
+func (m *Model) reachWithFuncArgs(f *ssa.Function) []*ssa.Function {
+	seen := map[*ssa.Function]bool{}
+	var out []*ssa.Function
+	var walk func(g *ssa.Function)
+	walk = func(g *ssa.Function) {
+		if g == nil || seen[g] || !m.isLib(g) || g.Blocks == nil {
+			return
+		}
+		seen[g] = true
+		out = append(out, g)
+		for _, h := range sortedFns(m.staticReach(g, true)) {
+			walk(h)
+		}
+		for _, h := range g.AnonFuncs {
+			walk(h)
+		}
+		eachInstr(g, func(in ssa.Instruction) {
+			if call, ok := isCallTo(valueOf(in), "(*sync.Once).Do", "time.AfterFunc"); ok {
+				for _, t := range m.funcValueTargets(call.Call.Args[1]) {
+					walk(t)
 				}
 			}
-		}
+		})
 	}
-	return false
+	walk(f)
+	return out
 }
 
 func adapterForwardingRule(c *Ctx, rule string) {
